@@ -324,3 +324,69 @@ pub fn gen_c07(r: &mut Rng, id: u64, thorough: bool) -> Value {
     for p in pnames { ops.push(json!({"op": "scan", "profile": p, "k": null, "c": null, "f": null, "off": null, "lim": null, "ord": true, "desc": false})); }
     json!({"id": id, "kind": "store", "prop": "C07", "file": r.chance(1, 5), "profile": "default", "ops": ops})
 }
+
+/// C05: one writing transaction interleaved with plain sessions and a competing transaction; every ending
+pub fn gen_c05(r: &mut Rng, id: u64, thorough: bool) -> Value {
+    let mut ops = vec![];
+    let small = |r: &mut Rng| -> (String, String) { (r.pick(&["c1", "c2"]).to_string(), r.pick(&["n1", "n2", "n3", "n4"]).to_string()) };
+    // pre-populate through a plain session
+    ops.push(json!({"op": "session", "s": 1, "txn": false}));
+    for _ in 0..r.below(5) {
+        let (c, n) = small(r);
+        ops.push(json!({"op": "insert", "s": 1, "k": 2, "c": c, "n": n, "v": value(r), "t": tags(r), "e": null}));
+    }
+    ops.push(json!({"op": "session", "s": 0, "txn": true}));
+    ops.push(json!({"op": "session", "s": 2, "txn": false}));
+    let competing = r.chance(1, 2);
+    if competing { ops.push(json!({"op": "session", "s": 3, "txn": true})); }
+    let len = if thorough { 6 + r.below(30) } else { 4 + r.below(14) };
+    let read = |r: &mut Rng, s: u64| -> Value {
+        let (c, n) = (r.pick(&["c1", "c2"]).to_string(), r.pick(&["n1", "n2", "n3", "n4"]).to_string());
+        match r.below(4) {
+            0 | 1 => json!({"op": "fetch", "s": s, "k": 2, "c": c, "n": n}),
+            2 => json!({"op": "count", "s": s, "k": 2, "c": null, "f": null}),
+            _ => json!({"op": "fetch_all", "s": s, "k": 2, "c": null, "f": null, "lim": null, "ord": true, "desc": false}),
+        }
+    };
+    let write = |r: &mut Rng, s: u64| -> Value {
+        let (c, n) = (r.pick(&["c1", "c2"]).to_string(), r.pick(&["n1", "n2", "n3", "n4"]).to_string());
+        match r.below(8) {
+            0..=3 => json!({"op": "insert", "s": s, "k": 2, "c": c, "n": n, "v": value(r), "t": tags(r), "e": null}),
+            4 | 5 => json!({"op": "replace", "s": s, "k": 2, "c": c, "n": n, "v": value(r), "t": tags(r), "e": null}),
+            6 => json!({"op": "remove", "s": s, "k": 2, "c": c, "n": n}),
+            _ => json!({"op": "remove_all", "s": s, "k": 2, "c": c, "f": null}),
+        }
+    };
+    for _ in 0..len {
+        let other: u64 = if r.chance(1, 2) { 1 } else { 2 };
+        let op = match r.below(12) {
+            0..=4 => write(r, 0),
+            5 | 6 => read(r, 0),
+            7 | 8 => read(r, other),
+            9 => write(r, other), // blocked while the transaction holds the lock
+            10 => if competing { read(r, 3) } else { json!({"op": "scan", "k": 2, "c": null, "f": null, "off": null, "lim": null, "ord": true, "desc": false}) },
+            _ => json!({"op": "scan", "k": 2, "c": null, "f": null, "off": null, "lim": null, "ord": true, "desc": false}),
+        };
+        ops.push(op);
+    }
+    ops.push(json!({"op": *r.pick(&["commit", "commit", "rollback", "drop"]), "s": 0}));
+    // afterwards: what everyone sees, plain writes apply at once, the competing transaction can run now
+    for _ in 0..(2 + r.below(5)) {
+        let other: u64 = if r.chance(1, 2) { 1 } else { 2 };
+        let op = match r.below(6) {
+            0 | 1 => read(r, other),
+            2 | 3 => write(r, other),
+            4 => if competing { write(r, 3) } else { read(r, 1) },
+            _ => json!({"op": "scan", "k": 2, "c": null, "f": null, "off": null, "lim": null, "ord": true, "desc": false}),
+        };
+        ops.push(op);
+    }
+    if competing { ops.push(json!({"op": *r.pick(&["commit", "rollback", "drop"]), "s": 3})); }
+    ops.push(json!({"op": "drop", "s": 1}));
+    ops.push(json!({"op": *r.pick(&["drop", "rollback", "commit"]), "s": 2}));
+    // a fresh session and a scan: what survived
+    ops.push(json!({"op": "session", "s": 9, "txn": false}));
+    ops.push(json!({"op": "fetch_all", "s": 9, "k": 2, "c": null, "f": null, "lim": null, "ord": true, "desc": false}));
+    ops.push(json!({"op": "scan", "k": null, "c": null, "f": null, "off": null, "lim": null, "ord": true, "desc": false}));
+    json!({"id": id, "kind": "store", "prop": "C05", "file": true, "params": "busy_timeout=100&max_connections=6", "profile": "default", "ops": ops})
+}
